@@ -22,7 +22,7 @@ theorem c14_propagates_init (v0 : β) (s : St φ ρ ε κ) : (init K c v0 s).2 =
 
 /-- a fault in the initial factorization is the outcome of `compute()` -/
 theorem c14_propagates_factorize (sel : Int) (maxit : Nat) (tol : τ) (sorting : Int) (s : St φ ρ ε κ) (e : Exn)
-    (h : (K.factorize 1 c.ncv s.fac).exn = some e) : (compute K c sel maxit tol sorting s).out = .error e :=
+    (h : (K.factorize (max 1 (K.facDim s.fac)) c.ncv s.fac).exn = some e) : (compute K c sel maxit tol sorting s).out = .error e :=
   compute_propagates_factorize K c sel maxit tol sorting s e h
 
 /-- a fault inside a restart's re-factorization is the outcome of that restart (and thereby of the loop and of `compute`) -/
